@@ -32,7 +32,9 @@ package gcsca
 //@   ensures[C11] forall(o, string, old(diskHas)[o] ==> diskHas[o])
 //@   ensures[C11] manifestWrites == old(manifestWrites) && (old(manifestWrites) == 0 ==> wroteAfterManifest == old(wroteAfterManifest))
 //@   ensures[C12] !allowOverwrite(ctx) ==> clobbers == old(clobbers)
-//@   ensures[C11] err == nil && result0 != nil ==> exists(i, 0 <= i && i < len(manifest.Entries) && manifest.Entries[i].KeyVersionName == keyVersionName)
+//@   ensures[C10,C11] err == nil ==> result0 != nil && exists(i, 0 <= i && i < len(manifest.Entries) && manifest.Entries[i].KeyVersionName == keyVersionName)
+//@   ensures[C10,C11] len(manifest.Entries) >= old(len(manifest.Entries)) && forall(i, 0 <= i && i < old(len(manifest.Entries)) ==> manifest.Entries[i] == old(manifest.Entries[i]))
+//@   ensures[C10,C11] forall(i, 0 <= i && i < old(len(manifest.Entries)) ==> old(manifest.Entries[i]) == manifest.Entries[i])
 
 //@ func (*CertificateAuthority).certObjectName
 //@   assigns nothing
@@ -69,6 +71,10 @@ package gcsca
 //@   ensures[C11] !wroteAfterManifest && manifestWrites <= 1
 //@   ensures[C11] manifestWrites == 1 ==> ca.manifest != nil && forall(i, 0 <= i && i < len(ca.manifest.Entries) ==> ca.manifest.Entries[i] != nil && diskHas[ca.manifest.Entries[i].ObjectPath])
 //@   ensures[C11] forall(o, string, old(diskHas)[o] ==> diskHas[o])
+// C10/C11: the manifest (which may already name the new primary) is written only once every certificate of the mutation
+// has its entry - a failed upload leaves the stored manifest as it was.
+//@   atcall writeManifest requires[C10,C11] forall(k, string, has(mut.certs, k) ==> exists(i, 0 <= i && i < len(p0.manifest.Entries) && p0.manifest.Entries[i].KeyVersionName == k))
+//@   loop 1 invariant[C10,C11] forall(k, string, visited(k) ==> exists(i, 0 <= i && i < len(manifest.Entries) && manifest.Entries[i].KeyVersionName == k))
 //@   loop 1 invariant manifest != nil && manifest == ca.manifest && manifestWrites == 0 && !wroteAfterManifest
 //@   loop 1 invariant forall(i, 0 <= i && i < len(manifest.Entries) ==> manifest.Entries[i] != nil && diskHas[manifest.Entries[i].ObjectPath] && manifest.Entries[i].ObjectPath != "keyManifest.textproto")
 //@   loop 1 invariant forall(o, string, old(diskHas)[o] ==> diskHas[o])
